@@ -44,6 +44,8 @@ def prompting(answers, on_prompt=None):
         if on_prompt:
             on_prompt(p)
         prompts.append(p)
+        if a == "EOF":          # standard input at end-of-file: nobody answered
+            raise EOFError("EOF when reading a line")
         return a
     builtins.input = fake_input
     try:
